@@ -104,7 +104,7 @@ def with_forms(rng, d):
     for path, node in list(D.walk(d)):
         if "q" not in node or node["k"] == "Bag":
             continue
-        form = rng.choice(["fn", "fn", "str", "named", "cached", "def", "cachednamed"])
+        form = rng.choice(["fn", "fn", "str", "named", "cached", "def", "cachednamed", "deflam", "deflam"])
         new = dict(D.node_at(out, path))
         if form == "str":
             new.update(form="str", nm=new["q"])
@@ -116,6 +116,8 @@ def with_forms(rng, d):
             new.update(form="cached", nm="cn_" + new["q"])
         elif form == "def":
             new.update(form="def", nm="def_" + new["q"])
+        elif form == "deflam":
+            new.update(form="deflam")
         out = D.replace_at(out, path, new)
     return out
 
@@ -338,7 +340,8 @@ def ops_failing(rng, d):
         if fids and rng.random() < 0.45:
             x["fa"] = rng.choice(fids)
             x["fm"] = rng.choice(["raise", "wrong"])
-        ops.append({"op": "Fill", "s": 1, "x": x, "w": rng.choice(DR.POSWEIGHTS + [Q(0)])})
+        # also weights that are not exactly representable: a rollback by subtraction would not restore them
+        ops.append({"op": "Fill", "s": 1, "x": x, "w": rng.choice(DR.POSWEIGHTS + [Q(0), Q(F(1, 10)), Q(F(3, 10)), Q(F(1, 3))])})
         if x["fa"] and rng.random() < 0.6:
             # the same record again, good this time: it takes the same route (e.g. into the bin the failed fill
             # would have created)
